@@ -40,33 +40,61 @@ func (core *JApiCore) addMacro(d *directive.Directive) *jerr.JApiError {
 	}
 
 	core.macro[name] = d
+	core.macroNames = append(core.macroNames, name)
 
 	return nil
 }
 
 func (core *JApiCore) checkMacroForRecursion() *jerr.JApiError {
-	for macroName, macro := range core.macro {
-		if je := findPaste(macroName, macro); je != nil {
-			return je
-		}
-	}
-	return nil
-}
+	// Depth-first search over the macro call graph, in the order in which the
+	// macros are defined, so a cycle of any length is found and the reported
+	// error doesn't depend on the map iteration order.
+	const (
+		inProgress = 1
+		done       = 2
+	)
+	state := make(map[string]int, len(core.macro))
 
-func findPaste(macroName string, d *directive.Directive) *jerr.JApiError {
-	if d.Type() == directive.Paste {
-		switch d.NamedParameter("Name") {
-		case "":
-			return d.KeywordError(fmt.Sprintf("%s (%s)", jerr.RequiredParameterNotSpecified, "Name"))
+	var visitMacro func(name string) *jerr.JApiError
+	var visitDirective func(d *directive.Directive) *jerr.JApiError
 
-		case macroName:
-			return d.KeywordError(jerr.RecursionIsProhibited)
+	visitDirective = func(d *directive.Directive) *jerr.JApiError {
+		if d.Type() == directive.Paste {
+			name := d.NamedParameter("Name")
+			if name == "" {
+				return d.KeywordError(fmt.Sprintf("%s (%s)", jerr.RequiredParameterNotSpecified, "Name"))
+			}
+			if state[name] == inProgress {
+				return d.KeywordError(jerr.RecursionIsProhibited)
+			}
+			if _, ok := core.macro[name]; ok && state[name] != done {
+				return visitMacro(name)
+			}
+			return nil
 		}
-	} else if d.Children != nil {
 		for _, c := range d.Children {
-			if je := findPaste(macroName, c); je != nil {
+			if je := visitDirective(c); je != nil {
 				return je
 			}
+		}
+		return nil
+	}
+
+	visitMacro = func(name string) *jerr.JApiError {
+		state[name] = inProgress
+		if je := visitDirective(core.macro[name]); je != nil {
+			return je
+		}
+		state[name] = done
+		return nil
+	}
+
+	for _, name := range core.macroNames {
+		if state[name] == done {
+			continue
+		}
+		if je := visitMacro(name); je != nil {
+			return je
 		}
 	}
 	return nil
